@@ -11,3 +11,6 @@ import (
 
 // WrapTracer returns the tracer unchanged.
 func WrapTracer(_ sdk.Context, tracer corevm.EVMLogger) corevm.EVMLogger { return tracer }
+
+// At marks a linearisation point of the event plumbing (hook H3); it does nothing.
+func At(_, _ string, _ ...interface{}) {}
